@@ -15,9 +15,13 @@ def gen_consts(v):
 # r<k> = return value of op k, d<k> = state dump after op k (per-port universe/priority/mode,
 # per-universe port and client lists, store contents), d = initial dump: property-determined.
 # c<k> = UniverseStore::m_deletion_candidates after op k: internal observable.
+# t<k> = for every universe, the port Universe::SendRDMRequest hands a unicast request for uid 1..3 to
+# (public behaviour of the UID routing table): property-determined.  q<k> = discoveries in flight per
+# output port (mock-side bookkeeping): internal.
 # p<k> = priority value/mode per port: the property only bounds the value (d<k> carries a '!prio>max'
 # marker for that); the exact value is a correspondence detail, hence non-SPEC.  b<k>, f<k>: broker, prefs.
-SPEC_KEYS = ['d'] + ['r%d' % i for i in range(MAX_OPS)] + ['d%d' % i for i in range(MAX_OPS)]
+SPEC_KEYS = ['d'] + ['r%d' % i for i in range(MAX_OPS)] + ['d%d' % i for i in range(MAX_OPS)] + \
+            ['t%d' % i for i in range(MAX_OPS)]
 INTERNAL_KEYS = []
 
 # The internal observables are read from private members.  They are only compiled in (and only
@@ -53,7 +57,7 @@ RULE = ('histories of patch/unpatch/set-priority/GC/client add+remove/port data/
         'every branch of GenericPatchPort / GenericUnPatchPort (same universe, loop refusal, multi-port refusal, veto '
         'on a fresh port, veto on a patched port + GC + use, refused un-patch + GC + use, null port), of '
         'SetPriorityStatic (199/200/201/255, uint8 wrap), of RestorePortSettings (restore vetoed / refused by policy), '
-        'unregister+stop+GC+re-register, RegisterForDmx(UNREGISTER) on a missing universe, the input and output port with the same port id (ids are per device and direction, as on real devices) to one universe under each policy, a universe going idle twice between collections, DMX frames (UpdateDmxData) interleaved with housekeeping runs (GC + CleanStaleSourceClients) where a sending source client is the only referrer; state compared after '
+        'unregister+stop+GC+re-register, RegisterForDmx(UNREGISTER) on a missing universe, the input and output port with the same port id (ids are per device and direction, as on real devices) to one universe under each policy, a universe going idle twice between collections, RDM discoveries started on patch that complete after re-patch / unpatch / GC / device stop, DMX frames (UpdateDmxData) interleaved with housekeeping runs (GC + CleanStaleSourceClients) where a sending source client is the only referrer; state compared after '
         'every op; non-trivial = at least one successful patch and one later state-changing op; distinct = distinct '
         'model output trace')
 ASSUMPTIONS = ['PreSetUniverse(old, new) is a function of the port, the number of the new universe (or NULL) and the '
@@ -77,7 +81,7 @@ TRUSTED = ['modelled rather than verified: PortManager.cpp (GenericPatchPort wit
            '(replicated in the harness; RDM discovery scheduling not modelled)',
            'the sibling view handed to the veto function is computed eagerly in the model (the code evaluates the '
            'hook only when SetUniverse is reached); device aliases and time-code port set not modelled',
-           'not modelled: RDM discovery on patch and UID maps, PortBroker RDM request routing, export-map counters, '
+           'modelled since wave 6: BasicOutputPort::SetUniverse discovery-on-patch with deferred completion (UpdateUIDs), Universe::NewUIDList and the uid erase of GenericRemovePort (as pruning after each op), observed through Universe::SendRDMRequest; a deleted port drops its pending completions (mock destructor), RDM request completions through PortBroker::RequestComplete not modelled', 'not modelled: full/periodic RDM discovery (RunRDMDiscovery), PortBroker RDM request routing, export-map counters, '
            'DMX merging (C01), file format / parsing of the preferences (C18), content of the saved universe settings',
            'the PortBroker and port-preference observables (b<k>, f<k>) and the GC candidate set (c<k>) are compared '
            'as internal keys: the property text does not mention them',
@@ -101,13 +105,16 @@ def mk_cfg(rng):
         if rng.random() < 0.4:
             veto = sorted(rng.sample(pool, rng.choice([1, 1, 2])))
         # [dev, input?, cap, veto numbers, state rule, pref universe, pref priority, pref mode]
-        ports.append([d, inp, cap, veto, '-', '-', '-', '-'])
+        ports.append([d, inp, cap, veto, '-', '-', '-', '-', '-'])
     for i in range(np_):
         # state-dependent veto on a sibling port (ShowNet style and variants)
         if rng.random() < 0.25:
             sib = [j for j in range(np_) if j != i and ports[j][0] == ports[i][0]]
             k = rng.choice(sib) if sib and rng.random() < 0.9 else rng.randrange(np_)
             ports[i][4] = rng.choice('Bbeu') + str(k)
+        # output port that starts RDM discovery on patch and completes it later
+        if not ports[i][1] and rng.random() < 0.45:
+            ports[i][8] = 'd'
         # preloaded port preferences
         if rng.random() < 0.3:
             ports[i][5] = str(rng.choice(pool + [4294967296])) if rng.random() < 0.8 else '-'
@@ -123,9 +130,9 @@ def cfg_s(devs, ports):
         if pt[1] and pt[2] == 0: pt[2] = 1
         if not pt[1] and pt[2] == 1: pt[2] = 0
     ds = ','.join(str(d) for d in devs) if devs else '-'
-    ps = ','.join('%d:%s:%d:%s:%s:%s:%s:%s' % (d, 'i' if inp else 'o', cap, '.'.join(map(str, v)) if v else '-',
-                                                 rl, pu, pp, pm)
-                  for d, inp, cap, v, rl, pu, pp, pm in ports) if ports else '-'
+    ps = ','.join('%d:%s:%d:%s:%s:%s:%s:%s:%s' % (d, 'i' if inp else 'o', cap, '.'.join(map(str, v)) if v else '-',
+                                                    rl, pu, pp, pm, (ds if not inp else '-'))
+                  for d, inp, cap, v, rl, pu, pp, pm, ds in ports) if ports else '-'
     return ds, ps
 
 
@@ -141,7 +148,9 @@ def rand_op(rng, devs, ports, pool):
     if r < 0.63: return 'R.%d' % rng.randrange(len(devs) + 1)
     if r < 0.655: return 'N.%d' % rng.randrange(len(devs) + 1)
     if r < 0.67: return rng.choice(['NA', 'RA.%d.%d' % (n, c), 'RU.%d.%d' % (n, c), 'RU.%d.%d' % (n, c),
-                                    'F.%d.%d' % (n, c), 'F.%d.%d' % (n, c), 'H', 'H'])
+                                    'F.%d.%d' % (n, c), 'F.%d.%d' % (n, c), 'H', 'H',
+                                    'DF.%d.%d' % (p, rng.randrange(8)), 'DF.%d.%d' % (p, rng.randrange(8)),
+                                    'DF.%d.%d' % (p, rng.randrange(8))])
     if r < 0.71: return 'S.%d.%d' % (p, rng.choice(PRIOS + [rng.randrange(256)]))
     if r < 0.72: return 'Q.%d.%d' % (p, rng.choice(PRIOS + [rng.randrange(256)]))
     if r < 0.75: return 'I.%d' % p
@@ -155,7 +164,7 @@ def rand_op(rng, devs, ports, pool):
 
 def directed(rng, devs, ports, pool):
     """prefixes aimed at the branches of GenericPatchPort"""
-    kind = rng.randrange(20)
+    kind = rng.randrange(24)
     np_ = len(ports)
     ops = []
     if kind == 0:
@@ -240,6 +249,29 @@ def directed(rng, devs, ports, pool):
         a, b = rng.sample(pool, 2)
         ops = ['P.%d.%d' % (k, a), 'P.%d.%d' % (p, a), 'P.%d.%d' % (p, b), 'P.%d.%d' % (p, a), 'G',
                'U.%d' % k, 'P.%d.%d' % (p, a), 'G']
+    elif kind in (20, 21, 22, 23):
+        # deferred completions: a discovery started by a patch completes after the port was re-patched /
+        # unpatched / its old universe collected / its device stopped; it may only touch the universe
+        # the port is on when it fires
+        p = rng.randrange(np_)
+        ports[p][1] = False; ports[p][2] = rng.choice([0, 2]); ports[p][3] = []; ports[p][4] = '-'; ports[p][8] = 'd'
+        a, b = rng.sample(pool, 2)
+        m1, m2 = rng.randrange(1, 8), rng.randrange(8)
+        if kind == 20:
+            ops = ['P.%d.%d' % (p, a), 'U.%d' % p, 'G', 'DF.%d.%d' % (p, m1), 'DF.%d.%d' % (p, m2), 'G']
+        elif kind == 21:
+            ops = ['P.%d.%d' % (p, a), 'P.%d.%d' % (p, b), 'DF.%d.%d' % (p, m1), 'G', 'DF.%d.%d' % (p, m2),
+                   'U.%d' % p, 'DF.%d.%d' % (p, 7), 'G']
+        elif kind == 22:
+            q = rng.randrange(np_)
+            d = ports[p][0] if ports[p][0] < len(devs) else 0
+            ops = ['P.%d.%d' % (p, a), 'DF.%d.%d' % (p, m1), 'P.%d.%d' % (q, a), 'DF.%d.%d' % (q, m2),
+                   'P.%d.%d' % (p, b), 'G', 'DF.%d.%d' % (p, m2), 'X.%d' % d, 'DF.%d.%d' % (p, 7), 'G']
+        else:
+            ops = []
+            for _ in range(rng.randrange(4, 10)):
+                ops.append(rng.choice(['P.%d.%d' % (p, a), 'P.%d.%d' % (p, b), 'U.%d' % p, 'G', 'H',
+                                       'DF.%d.%d' % (p, rng.randrange(8)), 'DF.%d.%d' % (p, rng.randrange(8))]))
     elif kind in (17, 18, 19):
         # source-client staleness: the only referrer of a universe is a client that keeps sending;
         # frames interleaved with housekeeping runs (and GC): it must survive while it sends at least
@@ -359,7 +391,7 @@ LEVEL_TEXT = ('Coq theorems over an executable model of port patching (PortManag
               'per-client stale flag, Port::SetPriority on the port): the full invariant; a client that sent a frame since the '
               'last-but-one housekeeping run and was not explicitly removed is still a source client of its still-live '
               'universe after ANY history; Device::Stop clears every port of the device whatever its hooks say; a '
-              'collection saves exactly the unused universes once each and frees exactly those.  Not covered: the PortBroker keeps the keys of ports deleted by Device::Stop (proved '
+              'collection saves exactly the unused universes once each and frees exactly those.  Wave 6: RDM discoveries started on patch may complete at any later point; proved that no completion dereferences a collected universe and that a universe routes RDM only to ports patched to it.  Not covered: the PortBroker keeps the keys of ports deleted by Device::Stop (proved '
               'as stated, reported as a finding outside the property text); preference file parsing is C18.')
 LEVEL_NOTE = ('Trusted: Coq kernel, extraction (ExtrOcamlBasic), OCaml/C++ glue, generator coverage of the '
               'correspondence (model = code is validated by differential testing, not proved); the plugin veto is '
